@@ -4,6 +4,7 @@ import (
 	"fmt"
 	"go/token"
 	"go/types"
+	"strings"
 
 	"golang.org/x/tools/go/ssa"
 )
@@ -818,7 +819,11 @@ func (fe *FnExec) doReturn(fr *frame, st *State, x *ssa.Return) {
 		ctx.old = fr.entry
 		ctx.bindResults(fr.fn.Signature, rv)
 		g := ctx.evalBool(en.X)
+		nob := len(fe.script.Obs)
 		fe.oblige(fr, fmt.Sprintf("post:%s@ret%d", en.Label, len(fr.rets)-1), en.Props, st.pc, g, x.Pos(), en.Src)
+		if len(fe.script.Obs) == nob+1 && !strings.HasPrefix(fe.script.Obs[nob].Note, "CANNOT BE EVALUATED") {
+			fe.script.Obs[nob].Clause = en.X
+		}
 	}
 	for _, inv := range fr.con.CbInvs {
 		ctx := fe.ctxFor(fr, st)
